@@ -1,9 +1,11 @@
 /- line-protocol handlers for the C05 models (Model/Graph.lean)
 
-request:  g.ops <op,op,…> R <root> F <lo-hi,lo-hi,…|-> { N <id> <size> <bytes|-> { L <pos> <width> <target> <adj> } }
+request:  g.ops <op,op,…> R <root> F <lo-hi,lo-hi,…|-> { N <id> <size> <bytes|-> [T <p|s><type>] { L <pos> <width> <target> <adj> } }
+  T     : the object is a GPOS (`p`) / GSUB (`s`) lookup of that lookup type (absent: not a lookup)
   bytes : `.`-joined segments `r<hh>x<count>` (run) / `h<hex>` (literal); `-` = no bytes given
           (then `bytes := []`: only ops that never look at bytes may be requested)
-  ops   : kahn short basic gate ovf assign iso pack ser dump
+  ops   : kahn short basic gate ovf assign iso pack ser dump | typed: sel promote packt dumpt
+          g.key <count> <size> : the f64 sort key of select_promotions_hb
 response: one token per op, then `|` and the final state; `trap` (alone) if any op panics.
 -/
 import FontVerif.Model.Graph
@@ -83,20 +85,36 @@ def parseLinks : Nat → List String → List Link → Option (List Link × List
       | _, _, _, _ => none
     | _ => some (acc.reverse, toks)
 
-def parseNodes : Nat → List String → Map Obj → Option (Map Obj)
-  | 0, _, _ => none
-  | fuel + 1, toks, acc =>
+def parseType (s : String) : Option TType :=
+  match s.toList with
+  | 'p' :: rest => (String.ofList rest).toNat?.map TType.gpos
+  | 's' :: rest => (String.ofList rest).toNat?.map TType.gsub
+  | _ => none
+
+def parseNodes : Nat → List String → Map Obj → Map TType → Option (Map Obj × Map TType)
+  | 0, _, _, _ => none
+  | fuel + 1, toks, acc, types =>
     match toks with
-    | [] => some acc
+    | [] => some (acc, types)
     | "N" :: id :: size :: bytes :: rest =>
       match id.toNat?, size.toNat?, parseBytes bytes with
       | some id, some size, some bs =>
-        match parseLinks (rest.length + 1) rest [] with
-        | some (links, rest) =>
-          if acc.contains id then none
-          else if bytes ≠ "-" && bs.length ≠ size then none
-          else parseNodes fuel rest (acc.insert id ⟨size, bs, links⟩)
+        let typed : Option (Option TType × List String) :=
+          match rest with
+          | "T" :: t :: rest' => match parseType t with
+            | some ty => some (some ty, rest')
+            | none => none
+          | _ => some (none, rest)
+        match typed with
         | none => none
+        | some (ty, rest) =>
+          match parseLinks (rest.length + 1) rest [] with
+          | some (links, rest) =>
+            if acc.contains id then none
+            else if bytes ≠ "-" && bs.length ≠ size then none
+            else parseNodes fuel rest (acc.insert id ⟨size, bs, links⟩)
+              (match ty with | some t => types.insert id t | none => types)
+          | none => none
       | _, _, _ => none
     | _ => none
 
@@ -116,66 +134,99 @@ def showState (g : Graph) : String :=
     joinWith "," (g.numRoots.map (fun kv => s!"{kv.1}:{kv.2}")) ++ " " ++
     " ".intercalate (g.objects.map (showObj g))
 
+def showType : TType → String
+  | .gpos t => s!"p{t}"
+  | .gsub t => s!"s{t}"
+  | .other => "o"
+
+/-- the lookup types of the objects still present (nothing for untyped requests) -/
+def showTypes (tg : TGraph) : String :=
+  let ts := tg.types.filter (fun kv => tg.g.objects.contains kv.1)
+  if ts.isEmpty then "" else " types=" ++ ",".intercalate (ts.map (fun kv => s!"{kv.1}:{showType kv.2}"))
+
 def showBool (b : Bool) : String := if b then "t" else "f"
 
 def showOverflows (ovs : List Overflow) : String :=
   "ovf=" ++ joinWith "," (ovs.map (fun o => s!"{o.1}>{o.2.1}:{o.2.2.1}:{o.2.2.2}"))
 
-/-- run one op on `(graph, fresh)`; `none` = trap; unknown op = `some none`. -/
-def runOp (op : String) (g : Graph) (fresh : List Nat) : Option (Option (String × Graph × List Nat)) :=
+/-- run one op on `(typed graph, fresh)`; `none` = trap; unknown op = `some none`. -/
+def runOp (op : String) (tg : TGraph) (fresh : List Nat) : Option (Option (String × TGraph × List Nat)) :=
+  let g := tg.g
+  let ret (r : String) (g : Graph) (fresh : List Nat) : Option (Option (String × TGraph × List Nat)) :=
+    some (some (r, { tg with g := g }, fresh))
   match op with
   | "kahn" => match sortKahn g with
-    | some g => some (some ("ok", g, fresh)) | none => none
+    | some g => ret "ok" g fresh | none => none
   | "short" => match sortShortest g with
-    | some g => some (some ("ok", g, fresh)) | none => none
+    | some g => ret "ok" g fresh | none => none
   | "basic" => match basicSort g with
-    | some (b, g) => some (some (showBool b, g, fresh)) | none => none
+    | some (b, g) => ret (showBool b) g fresh | none => none
   | "gate" => match hasOverflows g with
-    | some b => some (some (showBool b, g, fresh)) | none => none
+    | some b => ret (showBool b) g fresh | none => none
   | "ovf" => match findOverflows g with
-    | some ovs => some (some (showOverflows ovs, g, fresh)) | none => none
+    | some ovs => ret (showOverflows ovs) g fresh | none => none
   | "assign" => match assignSpaces g fresh with
-    | some (b, g, fresh) => some (some (showBool b, g, fresh)) | none => none
+    | some (b, g, fresh) => ret (showBool b) g fresh | none => none
   | "iso" => match findOverflows g with
     | none => none
     | some ovs => match tryIsolating g ovs fresh with
-      | some (b, g, fresh) => some (some (showBool b, g, fresh)) | none => none
+      | some (b, g, fresh) => ret (showBool b) g fresh | none => none
   | "pack" => match packObjects g fresh with
-    | some (b, g, fresh) => some (some (showBool b, g, fresh)) | none => none
+    | some (b, g, fresh) => ret (showBool b) g fresh | none => none
   | "ser" => match serialize g with
-    | some out => some (some (rle out, g, fresh)) | none => none
+    | some out => ret (rle out) g fresh | none => none
   | "dump" => match packObjects g fresh with
     | none => none
-    | some (false, g, fresh) => some (some ("fail", g, fresh))
+    | some (false, g, fresh) => ret "fail" g fresh
     | some (true, g, fresh) => match serialize g with
-      | some out => some (some (rle out, g, fresh)) | none => none
+      | some out => ret (rle out) g fresh | none => none
+  -- typed ops
+  | "sel" => match getPromotable tg with
+    | none => none
+    | some none => some (some ("sel=none", tg, fresh))
+    | some (some (can, parent)) => match selectPromotions tg can parent with
+      | none => none
+      | some sel => some (some (s!"sel={parent}:" ++ joinWith "." (can.map toString) ++ ":" ++ joinWith "." (sel.map toString), tg, fresh))
+  | "promote" => match tryPromotingWith selectPromotions tg fresh with
+    | some (tg, fresh) => some (some ("ok", tg, fresh)) | none => none
+  | "packt" => match packObjectsT tg fresh with
+    | some (b, tg, fresh) => some (some (showBool b, tg, fresh)) | none => none
+  | "dumpt" => match packObjectsT tg fresh with
+    | none => none
+    | some (false, tg, fresh) => some (some ("fail", tg, fresh))
+    | some (true, tg, fresh) => match serialize tg.g with
+      | some out => some (some (rle out, tg, fresh)) | none => none
   | _ => some none
 
-def runOps : List String → Graph → List Nat → List String → Option (Option (List String × Graph))
-  | [], g, _, acc => some (some (acc.reverse, g))
-  | op :: ops, g, fresh, acc =>
-    match runOp op g fresh with
+def runOps : List String → TGraph → List Nat → List String → Option (Option (List String × TGraph))
+  | [], tg, _, acc => some (some (acc.reverse, tg))
+  | op :: ops, tg, fresh, acc =>
+    match runOp op tg fresh with
     | none => none
     | some none => some none
-    | some (some (r, g, fresh)) => runOps ops g fresh (r :: acc)
+    | some (some (r, tg, fresh)) => runOps ops tg fresh (r :: acc)
 
 def handle (cmd : String) (args : List String) : Option String :=
   match cmd, args with
   | "g.ops", ops :: "R" :: root :: "F" :: fresh :: rest =>
-    match root.toNat?, parseFresh fresh, parseNodes (rest.length + 1) rest [] with
-    | some root, some fresh, some objs =>
+    match root.toNat?, parseFresh fresh, parseNodes (rest.length + 1) rest [] [] with
+    | some root, some fresh, some (objs, types) =>
       if !objs.contains root then none else
       -- every link target must exist (the hook's builder guarantees it)
       if !(objs.all (fun kv => kv.2.links.all (fun l => objs.contains l.target))) then none else
-      match runOps (ops.splitOn ",") (Graph.fromObjects objs root) fresh [] with
+      match runOps (ops.splitOn ",") ⟨Graph.fromObjects objs root, types⟩ fresh [] with
       | none => some "trap"
       | some none => none
-      | some (some (rs, g)) => some (" ".intercalate rs ++ " | " ++ showState g)
+      | some (some (rs, tg)) => some (" ".intercalate rs ++ " | " ++ showState tg.g ++ showTypes tg)
     | _, _, _ => none
   | "g.rle", [bytes] =>
     match parseBytes bytes with
     | some bs => some (rle bs)
     | none => none
+  | "g.key", [count, size] =>
+    match count.toNat?, size.toNat? with
+    | some c, some s => some (toString (promotionKey c s))
+    | _, _ => none
   | _, _ => none
 
 end FontVerif.Drv.C05
